@@ -95,7 +95,7 @@ func cliSession(state string, mode dev.CloseMode) {
 			wg.Add(1)
 			go func() { defer wg.Done(); _ = g.Close() }()
 		}
-		wg.Wait()
+		waitOrHang(&wg)
 	} else {
 		_ = g.Close()
 		if state == "second-seq" {
@@ -201,7 +201,23 @@ func TestC20(t *testing.T) {
 					}
 				}
 			}()
-			wg.Wait()
+			waitOrHang(&wg)
 		}
+	}
+}
+
+
+// waitOrHang waits for the free-running goroutines of one round; a round takes milliseconds, so one that is
+// still running after two minutes is stuck (deadlock): report it instead of sitting out the test timeout.
+func waitOrHang(wg *sync.WaitGroup) {
+	done := make(chan struct{})
+	go func() { wg.Wait(); close(done) }()
+	select {
+	case <-done:
+	case <-time.After(2 * time.Minute):
+		buf := make([]byte, 1<<20)
+		n := runtime.Stack(buf, true)
+		fmt.Printf("@@HANG free-running round did not finish in 2m\n%s\n", buf[:n])
+		os.Exit(3)
 	}
 }
